@@ -1009,6 +1009,11 @@ func callBuiltin(caller *frame, callpos token.Pos, fn *ssa.Builtin, args []value
 		case *value:
 			return len((*x).(array))
 		case []value:
+			if len(x) == 1 {
+				if _, ok := x[0].(atomChunk); ok {
+					panic(unsupported{"len of the bytes of an atom string"})
+				}
+			}
 			return len(x)
 		case *gmap:
 			return x.len()
@@ -1017,7 +1022,8 @@ func callBuiltin(caller *frame, callpos token.Pos, fn *ssa.Builtin, args []value
 		case symBytesStr:
 			return len(x.b)
 		case symStr:
-			panic(unsupported{"len of an atom string"})
+			r := caller.i.run
+			return r.mkSymInt(r.tc.StrLen(x.t), types.Int)
 		default:
 			panic(fmt.Sprintf("len: illegal operand: %T", x))
 		}
@@ -1154,7 +1160,13 @@ func conv(r *Run, t_dst, t_src types.Type, x value) value {
 		if b, ok := t_dst.Underlying().(*types.Basic); ok {
 			return r.symConv(b, x)
 		}
-		if _, ok := x.(symStr); ok {
+		if sx, ok := x.(symStr); ok {
+			if sl, ok := t_dst.Underlying().(*types.Slice); ok {
+				if b, ok := sl.Elem().Underlying().(*types.Basic); ok && b.Kind() == types.Byte {
+					// []byte(atom): an opaque one-chunk byte slice that only converts back to the atom
+					return []value{atomChunk{sx.t}}
+				}
+			}
 			panic(unsupported{"conversion of an atom string to " + t_dst.String()})
 		}
 	}
